@@ -313,6 +313,13 @@ def r2_decoder(program, folder, rep, fmt, enc):
                       node=b_.node.ast)
             dec["flags"] = (2, 0, 8, 0)
             continue
+        if any(x_[0] == "item" and x_[1][0] == "global" and any(
+                y_ == U for y_ in subterms(x_[2])) for x_ in subterms(t)):
+            # TABLE[<header byte>]: the bits are taken out by a table made
+            # elsewhere
+            raise AnalysisError("_unpack_sdp_into_packet: %s is decoded "
+                                "through a module-level lookup table; not "
+                                "analysed" % field)
         lay = provenance(reify(t), const_of)
         if len(lay.pieces) != 1 or lay.const:
             rep.bad("C15-R2", inst, "decode of %s" % field,
@@ -364,7 +371,12 @@ def _fields(packs):
         for cnt, code in re.findall(r"(\d*)([A-Za-z?])", body):
             if code in "spx":
                 raise AnalysisError("struct format %r: not field-wise" % fmt)
+            # (standard sizes: L is I and l is i - four bytes either way)
+            if order in "=<>!":
+                code = {"L": "I", "l": "i"}.get(code, code)
             codes.extend([code] * (int(cnt) if cnt else 1))
+        if order == "!":
+            order = ">"
         if len(codes) != len(vals):
             raise AnalysisError("struct format %r does not match %d values"
                                 % (fmt, len(vals)))
@@ -610,10 +622,31 @@ def r3_scp_decoder(program, folder, rep):
                     call_name(d.value)[0] == "len" and d.value.args and \
                     chain(d.value.args[0]) == data_var:
                 defs_eq += eq(Poly.atom(d.var), L)
+        # ... and temporaries computed from it (len(data) // 4), with the
+        # axioms of the operations they are made of
+        for d in fl.defs:
+            if d.mode == "assign" and d.value is not None and \
+                    not (isinstance(d.value, ast.Call) and
+                         call_name(d.value)[0] == "len") and \
+                    isinstance(d.var, str) and "." not in d.var and any(
+                        isinstance(x, ast.Call) and
+                        call_name(x)[0] == "len" and x.args and
+                        chain(x.args[0]) == data_var
+                        for x in ast.walk(d.value)):
+                try:
+                    defs_eq += eq(Poly.atom(d.var), fl.sym(d.value, d.node))
+                except AnalysisError:
+                    pass
         strict = []
         for cond, pol, a in fl.facts(node):
             for con in fl.cond_constraints(cond, pol, a):
-                if not entails(spec + defs_eq + [le(0, L)], con):
+                ax_, splits_ = fl.axioms([con.p] + [c_.p for c_ in defs_eq])
+                import itertools as _it
+                combos = list(_it.product(*splits_)) if splits_ and \
+                    len(splits_) <= 4 else [()]
+                if not all(entails(spec + defs_eq + ax_ + [le(0, L)] +
+                                   [c_ for alt_ in combo for c_ in alt_],
+                                   con) for combo in combos):
                     strict.append(unparse(cond))
         rep.check(not strict, "C15-R3", inst,
                   "arg%d is read whenever n_args >= %d and the body has %d "
@@ -926,6 +959,36 @@ def r1_forwarding(program, rep):
                        "%s as %s" % (bound[k][1], k) for k in bad))
 
 
+def r1_payload(program, rep):
+    """What follows the header of a plain SDP packet is the packet's data,
+    byte for byte: the decoder takes everything after the header as the
+    data, so padding or trimming it on the way out does not round-trip."""
+    fn = program.get(MOD + ":SDPPacket.packed_data")
+    T = Terms(fn)
+    SELF = ("param", "self")
+    rets = [plain(T.term(r.value, T.cfg.node_of(r)))
+            for r in returns_of(fn) if r.value is not None]
+    if not rets:
+        raise AnalysisError("SDPPacket.packed_data returns nothing")
+    DATA = ("attr", SELF, "data")
+    for t in rets:
+        if t == DATA or t in (("call", ("global", "bytes"), (DATA,), ()),):
+            ok, why = True, ""
+        elif any(st == DATA for st in subterms(t)) and t[0] in (
+                "binop", "item", "call"):
+            ok = False
+            why = "the payload written is %s, not the data itself" % \
+                show(t)[:70]
+        else:
+            raise AnalysisError("SDPPacket.packed_data: the payload is not "
+                                "read")
+        rep.check(ok, "C15-R1", qual(fn), "the payload of an SDP packet is "
+                  "its data, unchanged", construct="sdp payload", node=fn,
+                  fail=why + ": bytes are added, dropped or altered on the "
+                       "way out, and decoding what was sent does not give "
+                       "back the data")
+
+
 def r1_falsy_fields(program, rep):
     """A packet built with a field value of 0 (tag 0, port 0, core 0, chip
     (0, 0), argument word 0) carries that 0: a default chosen by a truth
@@ -952,6 +1015,7 @@ def check(program, rep):
     res = rep.guard("C15-R1", r1_encoder, program, folder, rep)
     rep.guard("C15-R1", r1_forwarding, program, rep)
     rep.guard("C15-R1", r1_falsy_fields, program, rep)
+    rep.guard("C15-R1", r1_payload, program, rep)
     if res:
         rep.guard("C15-R2", r2_decoder, program, folder, rep, *res)
     rep.guard("C15-R3", r3_scp, program, folder, rep)
